@@ -63,7 +63,8 @@ def plan(tier):
                         "pyx configuration = rendered cython_add.pyx"],
         "explanation": "every state: breakpoints = strictly increasing union with unchanged end "
                        "points, piece values / one-sided limits and the integral equal the exact "
-                       "grid model; every transition: operand byte-identical, copies independent "
+                       "grid model; every transition: operand byte-identical (and the operands of all "
+                       "earlier adds; scaling the operand leaves the sum alone), copies independent "
                        "in both directions; merging histories must have produced the same object "
                        "(order independence); f+g vs g+f and average_profile over all pairs",
     }
